@@ -108,6 +108,11 @@ func (b *backend) Delete(ctx context.Context, r *proto.DeleteRequest) (resp *pro
 		// 2. concurrent modification
 		val, modRevision, getErr := b.get(ctx, r.Key, 0)
 		if getErr != nil {
+			if errors.Is(getErr, storage.ErrKeyNotFound) {
+				// the key has been deleted by a concurrent request: there is no current value
+				// to answer with (as in Update)
+				return resp, nil
+			}
 			resp.Kv = &proto.KeyValue{
 				Key:      r.Key,
 				Value:    old.Val,
